@@ -90,7 +90,8 @@ def run(R):
                 witness='converted under %s' % sorted(got or []), kind='path', tag='coerce-guard')
 
 
-def check_pipeline(c, f):
+def check_pipeline(c, f, line=False):
+    """line=True: the routine is a sendline() that runs the send pipeline itself: the encoder input is <coerced argument> + self.linesep"""
     g = f.cfg
     p = f.params[1]
     prims = []
@@ -124,10 +125,17 @@ def check_pipeline(c, f):
             continue
         s = sarg.id
         sdefs = [m for m in g.nodes if m.kind == 'stmt' and s in assigned_names(m.ast)]
-        oks = len(sdefs) == 1 and isinstance(sdefs[0].ast.value, ast.Call) and callee_last(sdefs[0].ast.value) == '_coerce_send_string' \
-            and sdefs[0].ast.value.args and is_name(sdefs[0].ast.value.args[0], p) or (s == p and len(sdefs) == 1 and
-            isinstance(sdefs[0].ast.value, ast.Call) and callee_last(sdefs[0].ast.value) == '_coerce_send_string' and is_name(sdefs[0].ast.value.args[0], p))
-        c.check(oks, f, enc, 'the encoder input is the coerced argument, nothing else (no strip / slice / replace in between)',
+        def coerced(e):
+            return isinstance(e, ast.Call) and callee_last(e) == '_coerce_send_string' and e.args and is_name(e.args[0], p)
+        if line:
+            v_ = sdefs[0].ast.value if len(sdefs) == 1 and isinstance(sdefs[0].ast, ast.Assign) else None
+            left = v_.left if isinstance(v_, ast.BinOp) and isinstance(v_.op, ast.Add) else None
+            if isinstance(left, ast.Name) and left.id != p:
+                left = aliases_of(f).single_assign.get(left.id, left)
+            oks = left is not None and norm(v_.right) == 'self.linesep' and coerced(left)
+        else:
+            oks = len(sdefs) == 1 and isinstance(sdefs[0].ast, ast.Assign) and coerced(sdefs[0].ast.value)
+        c.check(oks, f, enc, 'the encoder input is the coerced argument%s, nothing else (no strip / slice / replace in between)' % (' + exactly one line separator' if line else ''),
                 witness='%s defined by %s' % (s, [norm(m.ast) for m in sdefs]), kind='flow', tag='encode-coerced')
         # log once, same value, before the write
         logs = [(m, lk) for m, lk in cfg_nodes_with_call(f, lambda lk: callee_last(lk) == '_log')]
@@ -156,6 +164,10 @@ def check_sendline(c, repo, cl):
     g = f.cfg
     p = f.params[1]
     sends = cfg_nodes_with_call(f, lambda k: callee_last(k) == 'send' and ctext(k.func.value, f) == 'self')
+    if not sends and cfg_nodes_with_call(f, lambda k: write_primitive(k) is not None):
+        # a sendline() that does not go through send() but runs the same pipeline itself
+        check_pipeline(c, f, line=True)
+        return
     c.need(sends, '%s: no self.send call' % f.qual)
 
     def mentions(e, what):
